@@ -194,6 +194,25 @@ func c09Tab(thorough bool) *c09Table {
 				return c09Case{"bin", m, "short varint " + note}
 			})
 		}
+		// inflated claims followed by K real payload bytes (K around the decoder's chunk sizes)
+		ks := []int{1, 4095, 4096, 4097, 8192, 8193, 70000}
+		heads := [][]byte{
+			append(append([]byte(nil), txid32(5)...), 1, 0, 0, 0),                                   // Input: outpoint, then script length
+			{1, 0, 0, 0, 0, 0, 0, 0},                                                               // Output: value, then script length
+			append(append([]byte{1, 0, 0, 0, 1}, txid32(5)...), 1, 0, 0, 0),                        // Tx with one input
+			append(append([]byte{1, 0, 0, 0, 0, 0, 0, 0, 0, 0xEF, 1}, txid32(5)...), 1, 0, 0, 0),  // extended Tx with one input
+			{1, 0, 0, 0, 0, 1, 9, 0, 0, 0, 0, 0, 0, 0},                                             // Tx, no inputs, one output
+			append(append([]byte{1, 1, 0, 0, 0, 1}, txid32(5)...), 1, 0, 0, 0),                     // tx list of one tx
+		}
+		t.add(len(heads)*len(ks)*len(c09Claims), func(j uint64) c09Case {
+			cl := c09Claims[j%uint64(len(c09Claims))]
+			j /= uint64(len(c09Claims))
+			k := ks[j%uint64(len(ks))]
+			h := heads[j/uint64(len(ks))]
+			m := append(append([]byte(nil), h...), claimBytes(cl)...)
+			m = append(m, fill(k, 0x51)...)
+			return c09Case{"bin", m, fmt.Sprintf("claim %d then %d bytes", cl, k)}
+		})
 		// restricted-alphabet strings
 		alpha := []byte{0x00, 0x01, 0x02, 0xEF, 0xFD, 0xFE, 0xFF}
 		maxL := 5
